@@ -275,7 +275,7 @@ func c09() []*Ob {
 						}
 					}
 					cold, hot := isTier("writeStores"), isTier("hotStores")
-					if len(CallsIn(fn, cold)) == 0 || len(CallsIn(fn, hot)) == 0 {
+					if !Current.HasCall(fn, cold) || !Current.HasCall(fn, hot) {
 						c.Undecided("storeDocs:tiers", fn.Pos(), "storeDocs no longer sends to both writeStores and hotStores through sendBulkToStores")
 						return
 					}
